@@ -46,9 +46,12 @@ VARIABLES
          \*   one function per dict of the implementation (Site._resources / Site._subsites)
   prev,  \* st before the most recent mutating operation (only used to label stale answers)
   act,   \* the operation performed by the last step
-  exp    \* its expected outcome
+  exp,   \* its expected outcome
+  asked  \* request paths issued so far (behaviour generation: they are asked again
+         \*   after later mutations, so that "adding or removing takes effect for the
+         \*   next request" is exercised on paths the implementation has served before)
 
-vars == <<st, prev, act, exp>>
+vars == <<st, prev, act, exp, asked>>
 
 -----------------------------------------------------------------------------
 (* Strings as sequences of characters                                        *)
@@ -171,9 +174,16 @@ NoFilter == [key |-> <<>>, val |-> <<>>, star |-> FALSE]
 -----------------------------------------------------------------------------
 (* Operations and their expected outcomes                                    *)
 
+(* A request also says how it is sent: method, confirmable or not, and the   *)
+(* authority it names (Uri-Host / Uri-Port; <<>> and 0 = option absent).  The *)
+(* routing decision depends on none of these; the handler has to be able to  *)
+(* reconstruct the named authority along with path and query.                *)
+Methods == {"GET", "POST", "PUT", "DELETE", "FETCH"}
+
 MkOp(op, s, p, id, q, f) ==
   [op |-> op, site |-> s, path |-> p, id |-> id, query |-> q,
-   key |-> f.key, val |-> f.val, star |-> f.star]
+   key |-> f.key, val |-> f.val, star |-> f.star,
+   method |-> "GET", con |-> FALSE, host |-> <<>>, port |-> 0]
 
 InDomain(W, s0, o) ==
   CASE o.op = "add" ->
@@ -187,7 +197,7 @@ InDomain(W, s0, o) ==
          /\ o.site \in W.sites
          /\ (o.path \in DOMAIN s0.res[o.site]) # (o.path \in DOMAIN s0.sub[o.site])
          /\ ~(o.site = W.root /\ o.path = WkcPath)
-    [] o.op = "request"  -> o.path # WkcPath
+    [] o.op = "request"  -> o.path # WkcPath /\ o.method \in Methods
     [] o.op = "discover" -> Route(W, s0, W.root, WkcPath).id = "wkc"
     [] OTHER -> FALSE
 
@@ -198,6 +208,7 @@ ReqExp(W, s0, pv, o) ==
       u == Href(o.path) \o (IF o.query = <<>> THEN <<>> ELSE <<"?">> \o o.query)
   IN [kind |-> r.kind, via |-> r.via, id |-> r.id, seen |-> r.seen,
       uri |-> IF r.kind = "nf" THEN <<>> ELSE u,
+      host |-> o.host, port |-> o.port,
       stale |-> Short(Route(W, pv, W.root, o.path))]
 
 DiscExp(W, s0, o) ==
@@ -217,6 +228,7 @@ ShowLinks(L) == {[href |-> Flat(l.href),
 Show(e) ==
   CASE e.kind \in {"hit", "nf"} ->
          [kind |-> e.kind, via |-> e.via, id |-> e.id, seen |-> FlatEach(e.seen), uri |-> Flat(e.uri),
+          host |-> Flat(e.host), port |-> e.port,
           stale |-> [kind |-> e.stale.kind, id |-> e.stale.id, seen |-> FlatEach(e.stale.seen)]]
     [] e.kind = "links" -> [kind |-> "links", all |-> ShowLinks(e.all), sel |-> ShowLinks(e.sel)]
     [] OTHER -> e
@@ -236,12 +248,16 @@ InitSt(W) == DoAddRes(EmptySt(W), W.root, WkcPath, "wkc")
 -----------------------------------------------------------------------------
 (* The small model                                                           *)
 
+(* `bare': the driver registers an object that implements interfaces.Resource *)
+(* only (no get_link_description): it does not hide itself, so it is listed, *)
+(* without attributes.  r2's title contains a space: title is single-valued, *)
+(* the whole value is what a filter is compared with.                        *)
 ModelAttrs ==
-  [ r1  |-> [hidden |-> FALSE, pairs |-> <<<<<<"r","t">>, <<"t","1"," ","t","2">>>>, <<<<"i","f">>, <<"i","1">>>>>>],
-    r2  |-> [hidden |-> FALSE, pairs |-> <<<<<<"c","t">>, <<"0"," ","4","1">>>>, <<<<"f","o","o">>, <<"b","a","r">>>>, <<<<"t","i","t","l","e">>, <<"t","1","x">>>>>>],
-    r3  |-> [hidden |-> TRUE,  pairs |-> <<<<<<"r","t">>, <<"t","1">>>>>>],
-    r4  |-> [hidden |-> FALSE, pairs |-> <<>>],
-    wkc |-> [hidden |-> FALSE, pairs |-> <<<<<<"c","t">>, <<"4","0">>>>>>] ]
+  [ r1  |-> [hidden |-> FALSE, bare |-> FALSE, pairs |-> <<<<<<"r","t">>, <<"t","1"," ","t","2">>>>, <<<<"i","f">>, <<"i","1">>>>>>],
+    r2  |-> [hidden |-> FALSE, bare |-> FALSE, pairs |-> <<<<<<"c","t">>, <<"0"," ","4","1">>>>, <<<<"f","o","o">>, <<"b","a","r">>>>, <<<<"t","i","t","l","e">>, <<"t","1"," ","x">>>>>>],
+    r3  |-> [hidden |-> TRUE,  bare |-> FALSE, pairs |-> <<<<<<"r","t">>, <<"t","1">>>>>>],
+    r4  |-> [hidden |-> FALSE, bare |-> TRUE,  pairs |-> <<>>],
+    wkc |-> [hidden |-> FALSE, bare |-> FALSE, pairs |-> <<<<<<"c","t">>, <<"4","0">>>>>>] ]
 
 ASSUME ResIds \subseteq {"r1", "r2", "r3", "r4"}
 ASSUME Root \notin SubSites /\ Leaves \cap (SubSites \cup {Root}) = {}
@@ -252,8 +268,9 @@ MW == [root |-> Root, sites |-> {Root} \cup SubSites, leaves |-> Leaves, attrs |
 (* (it does not keep a copy of the attribute table).                         *)
 ShowWorld ==
   [root |-> Root, sites |-> MW.sites, leaves |-> Leaves,
+   wrapped |-> SubSites \cap {"S2"},   \* nested through a PathCapable wrapper that is no Site
    attrs |-> [r \in ResIds \cup {"wkc"} |->
-                [hidden |-> ModelAttrs[r].hidden,
+                [hidden |-> ModelAttrs[r].hidden, bare |-> ModelAttrs[r].bare,
                  pairs  |-> [i \in 1..Len(ModelAttrs[r].pairs) |->
                                <<Flat(ModelAttrs[r].pairs[i][1]), Flat(ModelAttrs[r].pairs[i][2])>>]]]]
 ASSUME PrintT(<<"C17WORLD", ShowWorld>>)
@@ -284,8 +301,16 @@ ModelFilters ==
     F(<<"f","o","o">>, <<"b","a">>, TRUE),
     F(<<"f","o","o">>, <<"a","r">>, TRUE),
     F(<<"f","o","o">>, <<>>, TRUE),
+    F(<<"t","i","t","l","e">>, <<"t","1"," ","x">>, FALSE),
     F(<<"t","i","t","l","e">>, <<"t","1","x">>, FALSE),
+    F(<<"t","i","t","l","e">>, <<"t","1">>, FALSE),
+    F(<<"t","i","t","l","e">>, <<"x">>, FALSE),
     F(<<"t","i","t","l","e">>, <<"t","1">>, TRUE),
+    F(<<"t","i","t","l","e">>, <<"x">>, TRUE),
+    F(<<"r","t">>, <<"T","1">>, FALSE),
+    F(<<"r","t">>, <<"T">>, TRUE),
+    F(<<"h","r","e","f">>, <<"/","A">>, TRUE),
+    F(<<"f","o","o">>, <<"B","A","R">>, FALSE),
     F(<<"z","z">>, <<>>, TRUE) }
 
 (* the model sends requests without Uri-Query; histories evaluated through  *)
@@ -296,6 +321,7 @@ Init == /\ st = InitSt(MW)
         /\ prev = InitSt(MW)
         /\ act = MkOp("init", Root, <<>>, "", <<>>, NoFilter)
         /\ exp = Ok
+        /\ asked = {}
 
 Do(o) == /\ InDomain(MW, st, o)
          /\ LET r == Apply(MW, st, prev, o)
@@ -309,6 +335,10 @@ Do(o) == /\ InDomain(MW, st, o)
 (* mutate or request, discover -- and requests aim at paths that reach       *)
 (* something now, reached something before the last mutation, are related    *)
 (* (as prefix or extension) to a path registered at the root, or are empty.  *)
+(* The request that follows a mutation goes to a path that was asked before *)
+(* -- preferably one whose answer that mutation has changed --, because an   *)
+(* implementation may remember what it answered (ReAsk).  How a request is   *)
+(* sent (method, CON/NON, Uri-Host, Uri-Port) is drawn at random.            *)
 (* This restricts only which behaviours the generator produces; the          *)
 (* exhaustive run (WithQueries = FALSE) is not affected.                     *)
 Turn == IF WithQueries THEN (TLCGet("level") % 4) + 1 ELSE 0
@@ -323,11 +353,23 @@ Interesting(p) ==
   \/ \E e \in (DOMAIN st.res[Root] \cup DOMAIN st.sub[Root]) \ {WkcPath, <<>>} :
         IsPrefixOf(e, p) \/ IsPrefixOf(p, e)
 
-AddResource(s, p, r) == MayMutate /\ Do(MkOp("add", s, p, r, <<>>, NoFilter))
-AddSite(s, p, c)     == MayMutate /\ Do(MkOp("addsite", s, p, c, <<>>, NoFilter))
-Remove(s, p)         == MayMutate /\ Do(MkOp("remove", s, p, "", <<>>, NoFilter))
-Request(p, q)        == MayRequest /\ Interesting(p) /\ Do(MkOp("request", Root, p, "", q, NoFilter))
-Discover(f)          == MayDiscover /\ Do(MkOp("discover", Root, WkcPath, "", <<>>, f))
+Changed == {p \in asked : Short(Route(MW, prev, Root, p)) # Short(Route(MW, st, Root, p))}
+ReAsk   == IF Turn = 2 /\ asked # {} THEN (IF Changed # {} THEN Changed ELSE asked) ELSE {}
+Aimed(p) == IF ReAsk # {} THEN p \in ReAsk ELSE (Interesting(p) \/ p \in asked)
+
+ModelHosts == {<<>>, <<"v",".","e","x","a","m","p","l","e">>}
+ModelPorts == {0, 61616}
+
+AddResource(s, p, r) == MayMutate /\ Do(MkOp("add", s, p, r, <<>>, NoFilter)) /\ UNCHANGED asked
+AddSite(s, p, c)     == MayMutate /\ Do(MkOp("addsite", s, p, c, <<>>, NoFilter)) /\ UNCHANGED asked
+Remove(s, p)         == MayMutate /\ Do(MkOp("remove", s, p, "", <<>>, NoFilter)) /\ UNCHANGED asked
+Request(p, q) ==
+  /\ MayRequest /\ Aimed(p)
+  /\ \E m \in {RandomElement(Methods)}, c \in {RandomElement(BOOLEAN)},
+        h \in {RandomElement(ModelHosts)}, n \in {RandomElement(ModelPorts)} :
+        Do([MkOp("request", Root, p, "", q, NoFilter) EXCEPT !.method = m, !.con = c, !.host = h, !.port = n])
+  /\ asked' = asked \cup {p}
+Discover(f)          == MayDiscover /\ Do(MkOp("discover", Root, WkcPath, "", <<>>, f)) /\ UNCHANGED asked
 
 (* Candidates are enumerated so that hopeless ones (no room left for a new    *)
 (* entry, nothing registered to remove) are not even built; Do decides.      *)
@@ -345,7 +387,7 @@ Next == \/ \E s \in MW.sites :
 
 Spec == Init /\ [][Next]_vars
 
-(* act / exp / prev are outputs for replay and labelling; the invariants     *)
+(* act / exp / prev / asked are outputs for replay and labelling; the invariants *)
 (* below are functions of st alone, so the exhaustive run may identify       *)
 (* states by st.                                                             *)
 View == st
